@@ -19,10 +19,10 @@ type Stats struct {
 
 // Explorer enumerates all executions of body whose total deviation cost is <= Bound.
 type Explorer struct {
-	Opt      Options
-	Body     func()
+	Opt  Options
+	Body func()
 	// Check is called after every execution; a non-empty string is a violation.
-	Check    func(r *Result) string
+	Check func(r *Result) string
 	// Outcome summarises an execution (distinct outcomes are counted).
 	Outcome  func(r *Result) string
 	Deadline time.Time
